@@ -23,7 +23,7 @@ import time
 
 ROOT = os.path.dirname(os.path.dirname(os.path.abspath(__file__)))
 VX = os.path.join(ROOT, "tools", "vx", "target", "release", "vx")
-BUILD = os.path.join(ROOT, "build")
+BUILD = os.environ.get("VX_BUILD_DIR") or os.path.join(ROOT, "build")   # VX_BUILD_DIR: private build dir (tools/mutscan.py runs units in parallel)
 EVID = os.path.join(ROOT, "evidence")
 REPLAYS = os.path.join(ROOT, "replays")
 KNOWN = os.path.join(ROOT, "known_findings.txt")
